@@ -10,6 +10,7 @@ CONSTANTS
   FaultSites = {"core", "block", "inline", "inline2", "render", "highlight"}
   MaxCtx = 100
   MaxDepth = 100000
+  ChainToggleChains = {"core", "block", "inline", "inline2"}
   Variant = "head"
 SPECIFICATION TraceSpec
 INVARIANT TraceTypeOK
